@@ -58,6 +58,8 @@ package execution
 //@   ensures [clear_only_if_tainted_success] target.clearIssued && !old(target.clearIssued) ==> isTainted && err == nil
 //@   ensures [ran_iff_command] target.Command != "" ==> target.mainRan
 //@   ensures [reports_miss] r == dag.CacheMiss
+//@   ensures [executed_outputs_present] err == nil ==> target.OutputsLoaded
+//@   ensures [loaded_monotone] forall x *model.Target :: {x.OutputsLoaded} old(x.OutputsLoaded) ==> x.OutputsLoaded
 
 // the asynchronous taint removal: issued only after a successful execution (C13: "the taint is consumed by that successful execution")
 //@ func (*Executor).executeTarget$1() ()
@@ -70,6 +72,7 @@ package execution
 //@   ensures [written_under_current_key] err == nil ==> cacheWrites > old(cacheWrites) && lastWrittenKey == target.ChangeHash
 //@   ensures [no_output_hash_is_change_hash] err == nil && !inSlice(target.Tags, "no-cache") && e.enableCache && len(target.Outputs) == 0 && target.BinOutput.Identifier == "" ==> target.OutputHash == target.ChangeHash
 //@   ensures [outputs_marked_loaded] err == nil ==> target.OutputsLoaded
+//@   ensures [loaded_monotone] forall x *model.Target :: {x.OutputsLoaded} old(x.OutputsLoaded) ==> x.OutputsLoaded
 //@   ghostset target.resultWritten := target.resultWritten || cacheWrites > old(cacheWrites)
 
 // helpers that build fresh maps/slices for the shell template; no effect on existing objects
@@ -86,7 +89,22 @@ package execution
 // The frame is by field (type-level): only cache/restore bookkeeping fields of targets change.
 //@ func (*Executor).LoadDependencyOutputs(e, ctx, target, update) (err)
 //@   requires [in_worker] inWorker || soloPhase
+//@   requires [graph] absEdges(e.graph) && endpointsAreNodes(e.graph)
 //@   modifies heap("H$S$model.Target$OutputsLoaded"), heap("H$S$model.Target$OutputHash"), heap("H$S$model.Target$CacheTime"), heap("H$S$model.Target$ExecutionTime")
+//@   reveal inTargets
+//@   ensures [deps_loaded] err == nil ==> forall d model.BuildNode :: {edge(e.graph, d, tnode(target))} edge(e.graph, d, tnode(target)) && typeIs(d, "*model.Target") ==> asPtr(d, "*model.Target").OutputsLoaded
+//@   ensures [deps_behind_aliases_loaded] err == nil ==> forall a model.BuildNode, d model.BuildNode :: {edge(e.graph, a, tnode(target)), edge(e.graph, d, a)} edge(e.graph, a, tnode(target)) && !typeIs(a, "*model.Target") && edge(e.graph, d, a) && typeIs(d, "*model.Target") ==> asPtr(d, "*model.Target").OutputsLoaded
+//@   ensures [loaded_monotone] forall x *model.Target :: {x.OutputsLoaded} old(x.OutputsLoaded) ==> x.OutputsLoaded
+//@ loop #1
+//@   invariant [loaded_so_far] forall j int :: {ranged()[j]} 0 <= j && j <= rangeindex && j < len(ranged()) ==> ranged()[j].OutputsLoaded
+//@   invariant [loaded_monotone] forall x *model.Target :: {x.OutputsLoaded} old(x.OutputsLoaded) ==> x.OutputsLoaded
+
+// re-run of one dependency whose outputs could not be restored
+//@ func (*Executor).LoadDependencyOutputs$1() (err)
+//@   requires [in_worker] inWorker || soloPhase
+//@   modifies heap("H$S$model.Target$OutputsLoaded"), heap("H$S$model.Target$OutputHash"), heap("H$S$model.Target$CacheTime"), heap("H$S$model.Target$ExecutionTime")
+//@   ensures [rerun_outputs_present] err == nil ==> localDep.OutputsLoaded
+//@   ensures [loaded_monotone] forall x *model.Target :: {x.OutputsLoaded} old(x.OutputsLoaded) ==> x.OutputsLoaded
 
 // C02/C13/C14: the cache-hit gate.
 //@ func (*Executor).getTaskFunc$1(update) (r, err)
